@@ -228,7 +228,7 @@ def print_assumptions(ctx, props_file, theorems):
         lines.append(f'Goal True. idtac "@@BEGIN {t}". exact I. Qed.')
         lines.append(f"Print Assumptions {t}.")
         lines.append(f'Goal True. idtac "@@END {t}". exact I. Qed.')
-    name = f"cases/assume_{ctx.pid}.v"
+    name = f"cases/assume_{ctx.pid}_{os.getpid()}.v"
     (COQ / "cases").mkdir(exist_ok=True)
     (COQ / name).write_text("\n".join(lines) + "\n")
     ok, log = coqc_file(name, timeout=900)
@@ -379,7 +379,7 @@ def run_cases(ctx, name, header, checks, chunk=400, timeout=600):
     procs = []
     for ci in range(0, len(checks), chunk):
         part = checks[ci:ci + chunk]
-        rel = f"cases/{ctx.pid}_{name}_{ci // chunk}.v"
+        rel = f"cases/{ctx.pid}_{os.getpid()}_{name}_{ci // chunk}.v"
         body = [header, "Definition checks : list bool := ["]
         body.append(";\n".join(f"  ({c})" for c in part))
         body.append("].")
@@ -418,7 +418,7 @@ def run_cases(ctx, name, header, checks, chunk=400, timeout=600):
 
 def eval_terms(ctx, name, header, terms, timeout=600):
     """Evaluate arbitrary Gallina terms and return Coq's printed values (diagnostics only)."""
-    rel = f"cases/{ctx.pid}_{name}_eval.v"
+    rel = f"cases/{ctx.pid}_{os.getpid()}_{name}_eval.v"
     body = [header, "Set Printing Width 100000.", "Set Printing Depth 100000."]
     for i, t in enumerate(terms):
         body.append(f'Goal True. let r := eval vm_compute in ({t}) in idtac "@@V{i}" r. exact I. Qed.')
@@ -491,7 +491,7 @@ def write_evidence(ctx, mod, violations):
         "discharged": len(ctx.discharged),
         "obligation_names": ctx.obligations,
         "axioms_per_theorem": ctx.axioms,
-        "checker_cmd": f"cd /verif/coq && make {mod.PROPS_FILE[:-2]}.vo && coqc cases/assume_{ctx.pid}.v"
+        "checker_cmd": f"cd /verif/coq && make {mod.PROPS_FILE[:-2]}.vo && coqc -Q . SV cases/assume_{ctx.pid}_<pid>.v (Print Assumptions of every theorem)"
                        + ("  &&  coqchk -o" if ctx.thorough() else ""),
         "trusted_base": list(getattr(mod, "TRUSTED_BASE", [])),
         "evaluations": ctx.evaluations,
@@ -537,7 +537,7 @@ def run_property(mod, tier, seed, replay=None):
         ctx.obligations = THEOREM_RE.findall((COQ / mod.PROPS_FILE).read_text())
     broken_obligation = bool(ctx.failures)
     mt = getattr(mod, "MODEL_TARGETS", None)
-    if mt and not any(f.kind == "translator" for f in ctx.failures):
+    if mt:
         with CoqLock():
             ok, log = coq_make(list(mt))
         if not ok:
@@ -556,7 +556,9 @@ def run_property(mod, tier, seed, replay=None):
                 import traceback
                 ctx.add_failure(phase, phase + "-crash", f"{phase}-crash:{type(e).__name__}",
                                 f"{phase} crashed: {type(e).__name__}: {e}\n" + tail(traceback.format_exc(), 1500))
-        if broken_obligation and not any(f.witness is not None for f in ctx.failures):
+        known_now = load_known()
+        if broken_obligation and not any(f.witness is not None and known_match(ctx.pid, f, known_now) is None
+                                         for f in ctx.failures):
             fn = getattr(mod, "search", None)
             if fn is not None:
                 try:
